@@ -653,7 +653,7 @@ def discharge(ob, timeout_ms=20000, use_cli=True, split=1):
     except z3.Z3Exception:
         pass
     # 2. direct query (keeps lambdas / congruence of sum terms)
-    r, s = _check(fs1, 2000 if grounded else min(5000, timeout_ms))
+    r, s = _check(fs1, 2000 if grounded else min(8000, timeout_ms))
     if r == z3.unsat:
         return dict(verdict='proved', backend=zv, time=time.time() - t0)
     if r == z3.sat:
